@@ -37,7 +37,12 @@ structure SpecWorld where
   cb : Option Bool := none
   /-- `some k`: the second marker line of section `k` (0-based) was overwritten (C18) -/
   damaged : Option Nat := none
-  snaps : List (Nat × Bool × Nat × Bytes × List Entry × Bool) := []
+  /-- false once the source was cut while caches existed: a cache may then keep one
+  deviating bucket for good (C09), so cache bytes are no longer prescribed exactly -/
+  cachesExact : Bool := true
+  /-- files the script planted while no series existed (role name, bytes) -/
+  stale : List (String × Bytes) := []
+  snaps : List (Nat × Bool × Nat × Bytes × List Entry × Bool × Bool) := []
 deriving Inhabited
 
 def toBound : Impl.Bound → Bound
@@ -51,7 +56,7 @@ def expectEntries (es : List Entry) : String :=
   if es.isEmpty then "~empty" else "= " ++ fmtEntries es
 
 def cacheFile (p B : Nat) (log : List Entry) : Bytes :=
-  fileHeader p (cacheUserHeader "s".toUTF8.toList B) ++ encode p (bucketMeans B (linMean p) log)
+  outerHeader (cacheUserHeader "s".toUTF8.toList B) ++ encode p (bucketMeans B (linMean p) log)
 
 def cacheIndexFile (p B : Nat) (log : List Entry) : Bytes :=
   indexFile p (bucketMeans B (linMean p) log)
@@ -88,7 +93,7 @@ def step (w : SpecWorld) (op : Op) : SpecWorld × String :=
     | .open _ _ caches cb _, _ => ({ w with isOpen := true, caches := caches, cb := cb }, "~none")
     | .restore k, _ =>
       match w.snaps.find? (·.1 == k) with
-      | some (_, c, p, h, l, t) => ({ w with created := c, p := p, hdr := h, log := l, tainted := t, damaged := none, isOpen := false }, "~none")
+      | some (_, c, p, h, l, t, ce) => ({ w with created := c, p := p, hdr := h, log := l, tainted := t, cachesExact := ce, damaged := none, isOpen := false }, "~none")
       | none => (w, "~none")
     | _, _ => (w, "~none")
   else
@@ -96,7 +101,7 @@ def step (w : SpecWorld) (op : Op) : SpecWorld × String :=
     match op with
     | .restore k =>
       match w.snaps.find? (·.1 == k) with
-      | some (_, c, p, h, l, t) => ({ w with created := c, p := p, hdr := h, log := l, tainted := t, damaged := none, isOpen := false }, "~none")
+      | some (_, c, p, h, l, t, ce) => ({ w with created := c, p := p, hdr := h, log := l, tainted := t, cachesExact := ce, damaged := none, isOpen := false }, "~none")
       | none => (w, "~none")
     | .close => ({ w with isOpen := false }, "~none")
     | .open .. => ({ w with isOpen := true }, "~none")
@@ -109,6 +114,8 @@ def step (w : SpecWorld) (op : Op) : SpecWorld × String :=
     let user := hdr.getD []
     if w.created then (w, "~err AlreadyExists")
     else if (innerHeader p user).length > 65535 then (w, "~err HeaderTooLarge")
+    else if w.stale.any (fun (n, _) => n == "index" || caches.any (fun B => n == s!"c{B}" || n == s!"c{B}i")) then
+      (w, "~err AlreadyExists")
     else ({ w with created := true, p := p, hdr := user, log := [], isOpen := true, caches := caches, cb := none },
           s!"= ok p={p} hdr={hexOf user}")
   | .open p hdr caches cb _ =>
@@ -178,9 +185,12 @@ def step (w : SpecWorld) (op : Op) : SpecWorld × String :=
     if !w.isOpen then (w, "~none") else
     if n = 0 then (w, "~none") else (w, "= " ++ fmtEntries w.log)
   | .files =>
-    if !w.created then (w, "= ok") else
+    if !w.created then
+      let items := (w.stale.toArray.qsort (fun a b => a.1 < b.1)).toList
+      (w, "= ok" ++ String.join (items.map fun (n, b) => fileItem n b))
+    else
     let items := fileItem "data" (dataFile w.p w.hdr w.log) ++ fileItem "index" (indexFile w.p w.log)
-    let citems := w.caches.map fun B =>
+    let citems := (if w.cachesExact then w.caches else []).map fun B =>
       fileItem s!"c{B}" (cacheFile w.p B w.log) ++ fileItem s!"c{B}i" (cacheIndexFile w.p B w.log)
     (w, "~files" ++ items ++ String.join citems)
   | .cut r len =>
@@ -190,14 +200,19 @@ def step (w : SpecWorld) (op : Op) : SpecWorld × String :=
       if !w.created then (w, "~none")
       else if len ≥ (dataFile w.p w.hdr w.log).length then (w, "~none")
       else if len < hdrLen w then ({ w with tainted := true }, "~none")
-      else ({ w with log := w.log.take (linesWithin w.p w.log (len - hdrLen w)) }, "~none")
+      else ({ w with log := w.log.take (linesWithin w.p w.log (len - hdrLen w)), cachesExact := false }, "~none")
     | _ => (w, "~none")
   | .rm r =>
     if w.isOpen then (w, "~none") else
     match r with
     | .data => ({ w with tainted := true }, "~none")
     | _ => (w, "~none")
-  | .put r _ =>
+  | .put r b =>
+    if !w.created then
+      match r with
+      | .data => ({ w with tainted := true }, "~none")
+      | _ => ({ w with stale := (roleName r, b) :: w.stale.filter (·.1 != roleName r) }, "~none")
+    else
     match r with
     | .data => ({ w with tainted := true }, "~none")
     | .cdata _ => ({ w with tainted := true }, "~none")
@@ -212,16 +227,17 @@ def step (w : SpecWorld) (op : Op) : SpecWorld × String :=
       let hit := secs.findIdx? fun sc => hdrLen w + sc.2 + lineSize w.p == off
       match hit with
       | some k =>
-        if b.length = 2 && !(isMarker b) && k < secs.length then ({ w with damaged := some k }, "~none")
+        -- a full read starts after the first section and never meets it: no expectation for k = 0
+        if b.length = 2 && !(isMarker b) && k < secs.length && k > 0 then ({ w with damaged := some k }, "~none")
         else ({ w with tainted := true }, "~none")
       | none => ({ w with tainted := true }, "~none")
     | _ => ({ w with tainted := true }, "~none")
   | .get _ => (w, "~none")
   | .save k =>
-    ({ w with snaps := (k, w.created, w.p, w.hdr, w.log, w.tainted) :: w.snaps.filter (·.1 != k) }, "~none")
+    ({ w with snaps := (k, w.created, w.p, w.hdr, w.log, w.tainted, w.cachesExact) :: w.snaps.filter (·.1 != k) }, "~none")
   | .restore k =>
     match w.snaps.find? (·.1 == k) with
-    | some (_, c, p, h, l, t) => ({ w with created := c, p := p, hdr := h, log := l, tainted := t, isOpen := false }, "~none")
+    | some (_, c, p, h, l, t, ce) => ({ w with created := c, p := p, hdr := h, log := l, tainted := t, cachesExact := ce, isOpen := false }, "~none")
     | none => (w, "~none")
 
 end BS.SpecW
